@@ -125,6 +125,9 @@ func zzLockDiscipline(w *zzWorld, op, t int, name string) {
 	zzLockOp(w.real[t], op, name, v)
 	zz.SingleGoroutine(false)
 	zz.Assert(zz.RecursiveReadLocks() == 0, "C13.D1.no-self-deadlock/"+opName)
+	if zz.RecursiveReadLocks() > 0 {
+		return // (the stress run below would hang on the very deadlock just reported)
+	}
 	for _, e := range w.real {
 		if !e.rwMutex.TryLock() {
 			zz.Assert(false, "C13.D1.locks-released/"+opName)
